@@ -435,3 +435,10 @@ def run(ctx):
     r17_5(ctx)
     r17_6(ctx)
     r17_7(ctx)
+    # R17.13 = R04.4: the index caches of an HSpace that project_L2 assembles on are cleared by every refinement (wave 8: the clear moved
+    # into _add_level, so a refinement that adds no level kept stale lists); R17.14 = R09.1: the determinant kernels that weight
+    # the load vector agree with the cofactor expansion (wave 8: index typo in determinants_3x3)
+    import rules.C04 as c04
+    import rules.C09 as c09
+    ctx.shared(c04.r04_4, 'R04.4', 'R17.13')
+    ctx.shared(c09.r09_1, 'R09.1', 'R17.14')
